@@ -2,12 +2,13 @@ SPECIFICATION Spec
 CONSTANTS
   MaxGuards = 2
   MaxActs = 1
-  Engines = 2
+  Engines = 1
   RefLevel = "small"
-  Places = {"global", "closure", "list", "box", "hash", "cont", "host"}
+  Places = {"global"}
   Derive = TRUE
   Pair = FALSE
   Defects = {"shared_stack"}
-  EmitCases = TRUE
-INVARIANTS TypeOK Emit
+  EmitCases = FALSE
+INVARIANTS InvChildLive
 CHECK_DEADLOCK FALSE
+VIEW DesignView
